@@ -506,6 +506,8 @@ func (r *Rig) Exec(idx int, st *Step, prev *Step) *Drift {
 		if err != nil {
 			return r.drift(idx, "ack", "MessageDeleted acknowledged with %v", err)
 		}
+		delete(r.conn.Messages, r.remote[m])
+		delete(r.remote, m)
 	default:
 		return r.drift(idx, "harness", "unknown action %q", st.Act)
 	}
@@ -724,7 +726,22 @@ func (r *Rig) probeAgainstMirror(idx int, st *Step, s *rsess, before []mentry, r
 
 // OracleView returns the authoritative content of a mailbox as a fresh EXAMINE sees it.
 func (r *Rig) OracleView(box string) ([]Entry, int, error) {
-	res := r.oracle.Cmd("EXAMINE " + box)
+	// a brand-new session: its update queue is empty, so its snapshot is the database and nothing
+	// older can be applied on top of it while we look
+	oc, err := wire.Dial(r.srv.Addr)
+	if err != nil {
+		return nil, 0, err
+	}
+	defer oc.Close()
+	if lr := oc.Login("user", "pass"); lr.Status != "OK" {
+		return nil, 0, fmt.Errorf("oracle login: %s %s", lr.Status, lr.Text)
+	}
+	defer oc.Cmd("LOGOUT")
+	return r.oracleViewOn(oc, box)
+}
+
+func (r *Rig) oracleViewOn(oc *wire.Client, box string) ([]Entry, int, error) {
+	res := oc.Cmd("EXAMINE " + box)
 	if res.Status != "OK" {
 		return nil, 0, fmt.Errorf("oracle EXAMINE %s: %s %s", box, res.Status, res.Text)
 	}
@@ -734,23 +751,17 @@ func (r *Rig) OracleView(box string) ([]Entry, int, error) {
 			fmt.Sscanf(l.Text[i:], "[UIDNEXT %d]", &uidnext)
 		}
 	}
-	res = r.oracle.Cmd("FETCH 1:* (UID FLAGS BODY.PEEK[HEADER.FIELDS (SUBJECT)])")
+	res = oc.Cmd("FETCH 1:* (UID FLAGS BODY.PEEK[HEADER.FIELDS (SUBJECT)])")
 	var out []Entry
 	var seqOf []int
 	if res.Status == "OK" {
-		evs := wire.Events(res.Untagged)
-		k := 0
 		for _, l := range res.Untagged {
-			if !strings.Contains(l.Text, " FETCH ") {
+			le := wire.Events([]wire.Line{l})
+			if len(le) != 1 || le[0].Kind != "FETCH" || le[0].UID == 0 {
 				continue
 			}
-			e := Entry{}
-			n := 0
-			if k < len(evs) {
-				e.UID, e.F = evs[k].UID, normFlags(evs[k].Flags)
-				n = evs[k].N
-			}
-			k++
+			e := Entry{UID: le[0].UID, F: normFlags(le[0].Flags)}
+			n := le[0].N
 			seqOf = append(seqOf, n)
 			for _, lit := range l.Lits {
 				e.M = strings.TrimSpace(strings.TrimPrefix(strings.TrimSpace(string(lit)), "Subject:"))
@@ -758,7 +769,6 @@ func (r *Rig) OracleView(box string) ([]Entry, int, error) {
 			out = append(out, e)
 		}
 	}
-	r.oracle.Cmd("UNSELECT")
 	idxs := make([]int, len(out))
 	for i := range idxs {
 		idxs[i] = i
